@@ -209,6 +209,10 @@ var docExamples = []docEx{
 	{`gsub("a\tb", "\t", "TAB")`, "aTABb"},
 	{`joinv(fmtifnum({"a":3.1,"b":"x"}, "%.2f"), ",")`, "3.10,x"},
 	{`joinv(fmtnum([1,2], "%03d"), ",")`, "001,002"},
+	// "an arbitrary number [of captures] are supported here"; "\15 is treated as \1 followed by an unrelated 5"
+	{`joinv(strmatchx("abcdefghijk", "(a)(b)(c)(d)(e)(f)(g)(h)(i)(j)(k)")["captures"], "")`, "abcdefghijk"},
+	{`strmatchx("abcdefghijk", "(a)(b)(c)(d)(e)(f)(g)(h)(i)(j)(k)")["starts"][11]`, "11"},
+	{`sub("abcdefghijk", "(a)(b)(c)(d)(e)(f)(g)(h)(i)(j)(k)", "<\9\10>")`, "<ia0>"},
 	{`any([1,2,3], func(e) {return e =~ "2"})`, "true"},
 	{`any(["a","b"], func(e) {return e =~ "c"})`, "false"},
 }
